@@ -22,6 +22,8 @@ From Coq Require Import NArith List Lia.
 From Coq Require Import Permutation Sorting.Sorted.
 From Mtbl Require Import gen.Consts model.Bytes model.Order model.Heap model.Merger model.Sorter spec.MergeSpec proofs.SorterProofs
   proofs.MergerProofs proofs.MergerClosed proofs.SorterFull.
+(* source ties: the statements of the C functions the model follows (gen/Ties.v is regenerated from /repo on every run) *)
+From Mtbl Require props.Ties_C06.
 Local Open Scope N_scope.
 
 Theorem T06a_sorter_output :
